@@ -59,12 +59,14 @@ CLAIMED = {
  "C17": ("custom lint over the type-checked syntax tree (go/types field classification vs. generated switch) + SSA shape check of the engine",
          "Decides structurally, for all 264 node structs, that the generated traversal table pushes exactly the node-typed fields in reverse declaration order under their own names, that the 25-line engine has the pop/push/prune shape and Preorder stops calling yield once it returned false; this is the table the behaviour is driven by, so a wrong or missing entry is caught for every node type, including those no test traverses.",
          "Trusted: go/packages+go/types view of the tree; the Go semantics of append/slices. Not decided: the dynamic 'exactly once' theorem beyond the shape of walkMain.", "DESIGN.md §2 C17"),
+ "C20": ("value-identity (dataflow) rules over the SSA of token/file.go and error.go: which value reaches which field / format operand / slice bound",
+         "Decides the wiring the property rests on: Position.Line/Column are ResolvePos(pos), EndLine/EndColumn ResolvePos(end); the message prefix is path:Line+1:Column+1 of the error's own Position; ResolvePos returns column = pos - lines[line] for the line it returns, chosen by lines[line] <= pos scanning from the last entry down; the line table starts with 0 and grows by len(part)+1 over strings.Split(Buffer, \"\\n\"); every excerpt line is Buffer[lines[l]:lines[l+1]-1] for l from the resolved line to the resolved end line, numbered l+1.",
+         "Trusted: go/ssa. Not decided: that File.Position never panics for 0 <= pos <= end <= len and the arithmetic theorem 'line = number of newline bytes before pos' — both need invariants about the contents of File.lines (sorted, last entry len+1), which no analysis built here expresses; a rewrite of the linear search (binary search) would be reported as undecided.", "DESIGN.md §2 C20"),
  "C19": ("translation validation by syntax-tree comparison: checker's own POSLANG parser + translator vs. committed pos.go / walk_internal.go",
          "For each of the 264 node structs the documented pos/end expression is parsed with an independent parser, type-checked against the struct and compared with the body of the committed Pos()/End(); walk table against go/types; generator emitter/interpreter sibling agreement by shape; each interpreter method computes the same function as the helper its emitter names (abstract execution over the finite partition of operand values their comparisons distinguish).",
          "Trusted: the checker's POSLANG parser/translator (written from the documented EBNF). Not decided: byte-for-byte generator output (would mean running repository code), the reflective Var.Eval* methods.", "DESIGN.md §2 C19"),
 }
 NOT_APPLICABLE = {
- "C20": "Arithmetic over the lazily built line table (prefix sums, reverse search, slice bounds): needs invariants about the contents of File.lines (sorted, first 0, last len+1, sum of the split parts); the numeric domain built here (LEXBOUNDS) has scalar atoms only, and a solver is a different technique family. The one clause in reach — positions handed to File.Position by the lexer are <= len(Buffer) — is decided under C03/R6; that is too little to claim C20.",
 }
 PENDING_REASON = "check not built yet in this round (see DESIGN.md build order); not claimed until its rules run clean"
 
